@@ -1,14 +1,23 @@
 #!/bin/bash
-# usage: tools/run_all.sh [quick|thorough]   -- every registered check against /repo; evidence to a scratch dir
+# usage: [JOBS=n] tools/run_all.sh [quick|thorough]   -- every registered check against /repo; evidence to a scratch dir
+# JOBS (default 1) runs that many checks side by side; the lines come out in completion order.
 cd "$(dirname "$0")/.." || exit 2
 tier="${1:-quick}"
+jobs="${JOBS:-1}"
 pids=$(/venv/bin/python -c "import json; print(' '.join(c['property_id'] for c in json.load(open('MANIFEST.json'))['checks']))")
 ev=$(mktemp -d /tmp/verif-runall-XXXXXX)
-bad=0
-for p in $pids; do
-  out=$(VERIF_EVIDENCE_DIR=$ev ./check $p --tier $tier 2>&1); rc=$?
-  echo "$p rc=$rc $(echo "$out" | grep -E 'self-test [A-Z0-9]+:' | head -1) $(echo "$out" | grep -E 'obligations=' | tail -1)"
-  if [ $rc -ne 0 ]; then bad=1; echo "$out" | grep -E "MISSED|ANALYSIS-ERROR|VIOLATION|Traceback" | head -8; fi
-done
+one() {
+  p="$1"; tier="$2"; ev="$3"
+  out=$(VERIF_EVIDENCE_DIR=$ev/$p ./check $p --tier $tier 2>&1); rc=$?
+  line="$p rc=$rc $(echo "$out" | grep -E 'self-test [A-Z0-9]+:' | head -1) $(echo "$out" | grep -E 'seeded [A-Z0-9]+:' | head -1) $(echo "$out" | grep -E 'obligations=' | tail -1)"
+  if [ $rc -ne 0 ]; then
+    line="$line"$'\n'"$(echo "$out" | grep -E "MISSED|ANALYSIS-ERROR|VIOLATION|Traceback" | head -8)"
+    touch "$ev/FAILED"
+  fi
+  echo "$line"
+}
+export -f one
+echo $pids | tr ' ' '\n' | xargs -P "$jobs" -I{} bash -c "one {} $tier $ev"
+bad=0; [ -e "$ev/FAILED" ] && bad=1
 rm -rf "$ev"
 exit $bad
